@@ -295,6 +295,17 @@ func PoolConcurrent(pw *poolWriter, seed int64, ty string, ch, l, k, G, M, procs
 				v := pool.Get(byValue)
 				t := atomic.AddInt64(&ticket, 1)
 				logs[g] = append(logs[g], &PEvent{Op: "Get", G: g + 1, T: t, Res: "ok", View: obsOf(v), ptr: v.Raw(), Allocs: -1})
+				// sometimes hold a second buffer and return the first one first (get a, get b, put a, ..., put b)
+				var v2 View
+				if rng.Intn(3) == 0 {
+					v2 = pool.Get(byValue)
+					t = atomic.AddInt64(&ticket, 1)
+					logs[g] = append(logs[g], &PEvent{Op: "Get", G: g + 1, T: t, Res: "ok", View: obsOf(v2), ptr: v2.Raw(), Allocs: -1})
+					y := int64(1 + (g*11+m)%100)
+					v2.AppendSample(y)
+					t = atomic.AddInt64(&ticket, 1)
+					logs[g] = append(logs[g], &PEvent{Op: "Use", G: g + 1, T: t, Kind: "AppendSample", A: []int64{y}, Res: "ok", View: obsOf(v2), ptr: v2.Raw(), Allocs: -1})
+				}
 				if rng.Intn(3) == 0 {
 					runtime.Gosched()
 				}
@@ -331,6 +342,17 @@ func PoolConcurrent(pw *poolWriter, seed int64, ty string, ch, l, k, G, M, procs
 				e := &PEvent{Op: "Put", G: g + 1, T: t, ptr: v.Raw(), Allocs: -1}
 				logs[g] = append(logs[g], e)
 				e.Res = run(func() { pool.Put(v, byValue) })
+				if v2 != nil {
+					if rng.Intn(2) == 0 {
+						runtime.Gosched()
+					}
+					t = atomic.AddInt64(&ticket, 1)
+					logs[g] = append(logs[g], &PEvent{Op: "Check", G: g + 1, T: t, Res: "ok", View: obsOf(v2), ptr: v2.Raw(), Allocs: -1})
+					t = atomic.AddInt64(&ticket, 1)
+					e2 := &PEvent{Op: "Put", G: g + 1, T: t, ptr: v2.Raw(), Allocs: -1}
+					logs[g] = append(logs[g], e2)
+					e2.Res = run(func() { pool.Put(v2, byValue) })
+				}
 			}
 		}(g)
 	}
